@@ -567,7 +567,7 @@ def evaluate__error_type_and_function(self: XPathConstructor,
 ###
 # XSD list-based constructors
 
-@constructor('NMTOKENS', sequence_types=('xs:NMTOKEN*',))
+@constructor('NMTOKENS', sequence_types=('xs:anyAtomicType?', 'xs:NMTOKEN*'))
 def cast__nmtokens(self: XPathConstructor, value: ta.AtomicType) -> list[NMToken]:
     if isinstance(value, UntypedAtomic):
         values = value.value.split() or [value.value]
@@ -582,7 +582,7 @@ def cast__nmtokens(self: XPathConstructor, value: ta.AtomicType) -> list[NMToken
         raise self.error('FORG0001', err) from None
 
 
-@constructor('IDREFS', sequence_types=('xs:IDREF*',))
+@constructor('IDREFS', sequence_types=('xs:anyAtomicType?', 'xs:IDREF*'))
 def cast__idrefs(self: XPathConstructor, value: ta.AtomicType) -> list[Idref]:
     if isinstance(value, UntypedAtomic):
         values = value.value.split() or [value.value]
@@ -597,7 +597,7 @@ def cast__idrefs(self: XPathConstructor, value: ta.AtomicType) -> list[Idref]:
         raise self.error('FORG0001', err) from None
 
 
-@constructor('ENTITIES', sequence_types=('xs:ENTITY*',))
+@constructor('ENTITIES', sequence_types=('xs:anyAtomicType?', 'xs:ENTITY*'))
 def cast__entities(self: XPathConstructor, value: ta.AtomicType) -> list[Entity]:
     if isinstance(value, UntypedAtomic):
         values = value.value.split() or [value.value]
